@@ -1,4 +1,4 @@
-HOOK_COMMITS = ["4d47cea", "08b09e0", "638d362", "9be4c8c"]
+HOOK_COMMITS = ["4d47cea", "08b09e0", "638d362", "9be4c8c", "faa97ab", "552021a"]
 
 _PENDING = "no check registered yet: the model/theorems/correspondence for this property are not built at this commit (see DESIGN.md section 6 for the order of work)"
 NOT_APPLICABLE = {("C%02d" % i): _PENDING for i in range(1, 21)}
@@ -169,5 +169,27 @@ META = {
         "note": "Trusted: Coq kernel, extraction, the harness's own SCRAM arithmetic (RFC vectors). Partial: no Coq model of the SCRAM client. Fixed defects: PLAIN "
                 "accepted extra NUL-separated fields; SCRAM listener accepted a second init (51ebee0).",
         "technique": "Coq proof (induction over client action sequences) + extracted-model-vs-listener correspondence; client clauses by direct oracle only (partial)",
+    },
+    "C01": {
+        "text": "Theorem (Coq, closed): for every message (any bytes, any length) and every frame size that leaves room for the transfer performatives, the frames "
+                "produced by the model of the sending session's split, fed to the model of the receiving link, yield nothing before the last frame and then exactly one "
+                "delivery with the message's bytes, id and tag. The two models are tied to the code by the C07 (split_transfer against model and encoder) and C10 (Receiver "
+                "against model) correspondences, re-run here; the composed real system (client, listener, both directions, re-chunked byte stream, generated "
+                "configurations) is checked end to end by a direct oracle every run.",
+        "design_ref": "DESIGN.md section 4, C01",
+        "note": "Trusted: Coq kernel, extraction, the harnesses. Fixed defect: transfer-ids were assigned per delivery, not per frame: sends stalled after a message "
+                "larger than max-frame-size (83a401a). Known findings: deadlock with channel buffers of 1-2.",
+        "technique": "Coq proof (composition of the sender-split and receiver-reassembly models) + model-vs-code correspondences of both parts + end-to-end direct oracle",
+    },
+    "C15": {
+        "text": "Decided by exploration with a direct oracle: client and listener in 13 states x a catalogue of 180 hostile stimuli (framing, bodies, protocol violations) x 3 "
+                "follow-ups, plus mutated frames: no panic, no stack overflow, no pending call after EOF, bounded time / response / allocation per frame, an error visible to "
+                "the application, other connections unaffected. The theorems that bear on it are those of C04 (the decoder model is total, never panics, consumes a prefix) and "
+                "the totality of the lifecycle step functions of C12/C13/C19; there is no Coq model of the engines under arbitrary frames.",
+        "design_ref": "DESIGN.md section 4, C15",
+        "note": "Partial: exploration, not proof, for the engine-level clauses. Fixed defects found here: u32 overflow panic on a list count of 0xffffffff, 2^32-iteration loop "
+                "on a disposition range, session error lost when the peer does not answer the end, listener handle / channel hijack by a second attach / begin. Known "
+                "findings: unbounded decoder recursion, send() pending for ever, uncapped SCRAM iterations.",
+        "technique": "catalogue x state exploration with a direct oracle (child processes, bounded stack and time) + the decoder theorems of C04 (partial)",
     },
 }
